@@ -464,6 +464,24 @@ def failclosed_oracle(n_quick=120, n_thorough=2500):
                 base['must_fail'] = kind
                 base['preseed'] = (k % 2 == 0)
                 out.append(base)
+        # lines whose numbers, words and blank runs can be split in very many ways: matching them (or failing to) must not
+        # take time exponential in their length
+        ones, digits, blanks = '1' * 30, '1234567890' * 3, ' ' * 40
+        slow = [[f'#if %{ones}', '.byte 1', '#endif'], [f'#if {digits} == 1', '.byte 1', '#else', '.byte 2', '#endif'],
+                [f'#if b{ones}', '.byte 1', '#elif {0}'.format(digits), '.byte 2', '#endif'],
+                [f'.fill %{ones}'], [f'.fill {digits} 5'], [f'.fill 1{blanks}2'], [f'.fill 2,{blanks}%{ones} & 1'],
+                [f'.org {digits}{blanks}'], [f'.zero %{ones} - %{ones}'], [f'.zerountil longword_{digits}'],
+                [f'.byte {digits} {digits}'], [f'.2byte %{ones}, b{ones},{blanks}$ffffffffffffffffffffffffff'],
+                [f'KLONG = {digits} +{blanks}%{ones}'], [f'.align {digits}x'], [f'ldi a, %{ones} {digits}'],
+                [f'lbl_{digits}:{blanks}nop']]
+        for k, lines in enumerate(slow):
+            base = gen_program(random.Random(f'failclosed-slow-{k % 2}'), dict(prof, w={'label': 6, 'instr': 20, 'data': 10}), 'quick')
+            main = base['files'][0]['stmts']
+            for j, ln in enumerate(lines):
+                main.insert(j, ['other_text', ln])
+            base['preseed'] = (k % 2 == 0)
+            base['limit'] = 30
+            out.append(base)
         return out
     return Oracle(name='failclosed', gen=gen, check=_failclosed_check, nontrivial=nontrivial, corpus=corpus,
                   classify=lambda c: 'must_fail' if c.get('must_fail') else ('garbled' if c.get('garble') is not None else 'valid'),
